@@ -20,11 +20,13 @@
 (* (acyclic) GlomData heap value, so recorded rows may carry heaps with sharing.           *)
 (*                                                                                       *)
 (* pattern / spec AST (JSON-native records, field `op`):                                  *)
-(*   lit(v) type(t) pred(name,id) regex(name,func) m(cmp,rhs) mtruthy msub(steps,cmp,rhs)     *)
-(*   msubt(steps) tget(steps) val(v)                                                       *)
+(*   lit(v) type(t) pred(name,id) regex(name,func,flags) m(cmp,rhs,refl) mtruthy              *)
+(*   msub(steps,cmp,rhs) msubt(steps) tget(steps) val(v)      steps: item keys and [n:] slices *)
 (*   and(c,form,hasdef,def) or(c,form,hasdef,def) not(c,form)                              *)
-(*   switch(cases,hasdef,def) check(types,inst,vals,oneof,validate,hasdef,def)                *)
-(*   match(sub,hasdef,def)                                                                 *)
+(*   switch(cases,form,hasdef,def)          form: list of pairs | dict                      *)
+(*   check(sub,seq,types,inst,vals,oneof,validate,hasdef,def)   sub: T steps of Check(spec) *)
+(*   match(sub,hasdef,def)                  also nested inside patterns and combinators     *)
+(*   wrap(kind,key)                         construction of Optional(..) / Required(..)     *)
 (*   list(alts) set(alts) frozenset(alts) tuple(elems) dict(items)                         *)
 (*   optional(key,hasdef,def) required(key)            -- dict keys only                   *)
 EXTENDS GlomData
@@ -60,6 +62,12 @@ RegexTab ==
   [ra |-> [fullmatch |-> {"a"}, match |-> {"a", "aa", "ab"}, search |-> {"a", "aa", "ab", "ba"}],
    rb |-> [fullmatch |-> {"b", "bb"}, match |-> {"b", "ba", "bb"}, search |-> {"b", "ab", "ba", "bb"}],
    rs |-> [fullmatch |-> {"", "a", "aa"}, match |-> StrU, search |-> StrU]]
+
+\* rA = 'A' (upper case): matches nothing in the (lower-case) universe unless re.IGNORECASE
+\* is given, and then what 'a' matches; on lower-case patterns the flag changes nothing here
+NoStrings == [fullmatch |-> {}, match |-> {}, search |-> {}]
+RegexSet(name, func, flags) ==
+  IF name = "rA" THEN (IF flags = "I" THEN RegexTab["ra"][func] ELSE NoStrings[func]) ELSE RegexTab[name][func]
 
 RECURSIVE StrsOK(_)
 StrsOK(v) ==      \* every string of a value lies in the table universe
@@ -122,6 +130,10 @@ PyIsInstance(v, tn) ==
 PyType(v) ==
   IF v.k = "none" THEN "NoneType" ELSE IF IsC(v) THEN (IF v.cls = "odict" THEN "OrderedDict" ELSE v.cls) ELSE v.k
 
+\* a step  [n:]  (slice with a non-negative start only)
+VSlice(lo) == [k |-> "slice", lo |-> lo]
+DropN(items, n) == IF n >= Len(items) THEN <<>> ELSE SubSeq(items, n + 1, Len(items))
+StrOfSeq(sq) == CHOOSE s \in StrU : StrSeq[s] = sq        \* suffixes of universe strings are in the universe
 \* Python  cur[arg]  on trees
 TreeIndex(items, arg) ==
   IF ~IsNum(arg) THEN Exc("TypeError")
@@ -129,7 +141,12 @@ TreeIndex(items, arg) ==
        IF i >= 0 /\ i < n THEN Ok(items[i + 1])
        ELSE IF i < 0 /\ i >= -n THEN Ok(items[n + i + 1]) ELSE Exc("IndexError")
 TreeGetItem(cur, arg) ==
-  IF IsC(cur) THEN
+  IF arg.k = "slice" THEN
+    IF IsC(cur) /\ cur.cls \in {"list", "tuple"} THEN Ok(VC(cur.cls, DropN(cur.items, arg.lo)))
+    ELSE IF cur.k = "str" THEN Ok(VStr(StrOfSeq(DropN(StrSeq[cur.s], arg.lo))))
+    ELSE IF IsC(cur) /\ cur.cls \in {"dict", "odict"} THEN Exc("KeyError")
+    ELSE Exc("TypeError")
+  ELSE IF IsC(cur) THEN
     IF cur.cls \in {"dict", "odict"} THEN
       LET hit == {i \in 1..Len(cur.items) : PyEq(cur.items[i].key, arg)} IN
       IF hit = {} THEN Exc("KeyError") ELSE Ok(cur.items[CHOOSE i \in hit : TRUE].val)
@@ -161,8 +178,11 @@ PredRet(name, t) ==
 PLit(v) == [op |-> "lit", v |-> v]
 PType(t) == [op |-> "type", t |-> t]
 PPred(name, id) == [op |-> "pred", name |-> name, id |-> id]
-PRegex(name, func) == [op |-> "regex", name |-> name, func |-> func]
-PM(cmp, rhs) == [op |-> "m", cmp |-> cmp, rhs |-> rhs]
+PRegexF(name, func, flags) == [op |-> "regex", name |-> name, func |-> func, flags |-> flags]   \* flags: "" | "I"
+PRegex(name, func) == PRegexF(name, func, "")
+PMX(cmp, rhs, refl) == [op |-> "m", cmp |-> cmp, rhs |-> rhs, refl |-> refl]
+PM(cmp, rhs) == PMX(cmp, rhs, FALSE)             \* M cmp rhs
+PMR(cmp, lhs) == PMX(cmp, lhs, TRUE)             \* lhs cmp M   (Python reflects it onto M)
 PMTruthy == [op |-> "mtruthy"]
 PMSub(steps, cmp, rhs) == [op |-> "msub", steps |-> steps, cmp |-> cmp, rhs |-> rhs]
 PMSubT(steps) == [op |-> "msubt", steps |-> steps]
@@ -171,10 +191,16 @@ PVal(v) == [op |-> "val", v |-> v]
 PAnd(c, form, hasdef, def) == [op |-> "and", c |-> c, form |-> form, hasdef |-> hasdef, def |-> def]
 POr(c, form, hasdef, def) == [op |-> "or", c |-> c, form |-> form, hasdef |-> hasdef, def |-> def]
 PNot(c, form) == [op |-> "not", c |-> <<c>>, form |-> form]
-PSwitch(cases, hasdef, def) == [op |-> "switch", cases |-> cases, hasdef |-> hasdef, def |-> def]
-PCheck(types, inst, vals, oneof, validate, hasdef, def) ==      \* oneof: vals given as one_of=, else equal_to=
-  [op |-> "check", types |-> types, inst |-> inst, vals |-> vals, oneof |-> oneof, validate |-> validate,
-   hasdef |-> hasdef, def |-> def]
+PSwitchF(cases, form, hasdef, def) ==          \* form: "list" [(key, val), ..] | "dict" {key: val, ..}
+  [op |-> "switch", cases |-> cases, form |-> form, hasdef |-> hasdef, def |-> def]
+PSwitch(cases, hasdef, def) == PSwitchF(cases, "list", hasdef, def)
+\* sub: the T steps of Check(spec, ..) (<<>> = the target itself); seq: "list" | "tuple", how
+\* multi-valued arguments are passed; oneof: vals given as one_of=, else equal_to=
+PCheckS(sub, seq, types, inst, vals, oneof, validate, hasdef, def) ==
+  [op |-> "check", sub |-> sub, seq |-> seq, types |-> types, inst |-> inst, vals |-> vals, oneof |-> oneof,
+   validate |-> validate, hasdef |-> hasdef, def |-> def]
+PCheck(types, inst, vals, oneof, validate, hasdef, def) == PCheckS(<<>>, "list", types, inst, vals, oneof, validate, hasdef, def)
+PWrap(kind, key) == [op |-> "wrap", kind |-> kind, key |-> key]      \* Optional(key) / Required(key) being built
 PMatch(sub, hasdef, def) == [op |-> "match", sub |-> sub, hasdef |-> hasdef, def |-> def]
 PList(alts) == [op |-> "list", alts |-> alts]
 PSet(alts) == [op |-> "set", alts |-> alts]
@@ -199,11 +225,11 @@ IsRequiredKey(sk) == sk.op = "required" \/ (sk.op # "optional" /\ IsEqKey(sk))
 DefaultOps == {"and", "or", "switch", "match", "check"}
 HasDef(p) == p.op \in DefaultOps /\ p.hasdef
 
-\* can the Python object of a pattern be a set element / dict key?  (M itself defines __eq__
+\* can the Python object of a pattern be a set element / dict key?  (M and M(T..) define __eq__
 \* without __hash__; lists, sets and dicts are unhashable)
 RECURSIVE Hashable(_)
 Hashable(p) ==
-  IF p.op \in {"mtruthy", "list", "set", "dict"} THEN FALSE
+  IF p.op \in {"mtruthy", "msubt", "list", "set", "dict"} THEN FALSE
   ELSE IF p.op = "tuple" THEN \A i \in 1..Len(p.elems) : Hashable(p.elems[i])
   ELSE IF p.op = "frozenset" THEN \A i \in 1..Len(p.alts) : Hashable(p.alts[i])
   ELSE IF p.op = "required" THEN Hashable(p.key)
@@ -219,7 +245,9 @@ InFragment(mode, p) ==
   ELSE IF p.op \in {"pred", "regex", "m", "mtruthy", "msub", "msubt", "tget", "val", "check"} THEN TRUE
   ELSE IF p.op \in {"and", "or", "not"} THEN Len(p.c) >= 1 /\ all(p.c, mode)
   ELSE IF p.op = "switch" THEN
-         Len(p.cases) >= 1 /\ \A i \in 1..Len(p.cases) : InFragment(mode, p.cases[i][1]) /\ InFragment(mode, p.cases[i][2])
+         /\ Len(p.cases) >= 1 /\ \A i \in 1..Len(p.cases) : InFragment(mode, p.cases[i][1]) /\ InFragment(mode, p.cases[i][2])
+         /\ (p.form = "dict" => \A i \in 1..Len(p.cases) :       \* key specs are dict keys: hashable, distinct
+                Hashable(p.cases[i][1]) /\ \A j \in 1..(i - 1) : p.cases[i][1] # p.cases[j][1])
   ELSE IF p.op = "match" THEN InFragment("match", p.sub)
   ELSE IF p.op \in {"list", "set", "frozenset"} THEN
          mode = "match" /\ all(p.alts, mode) /\ (p.op # "list" => \A i \in 1..Len(p.alts) : Hashable(p.alts[i]))
@@ -247,7 +275,8 @@ FirstAlt(mode, t, alts) ==
 FirstKey(k, items) ==
   LET S == {j \in 1..Len(items) : Holds("match", k, KeyPat(items[j][1]))} IN IF S = {} THEN 0 ELSE MinOf(S)
 
-CheckHolds(t, p) ==
+\* the conditions of a Check on the value u they are applied to
+CheckHolds(u, p) == LET t == u IN
   /\ (p.types # <<>> => \E i \in 1..Len(p.types) : PyType(t) = p.types[i])           \* exact type
   /\ (p.inst # <<>> => \E i \in 1..Len(p.inst) : PyIsInstance(t, p.inst[i]))          \* isinstance
   /\ (p.vals # <<>> => \E i \in 1..Len(p.vals) : PyEq(t, p.vals[i]))                  \* equal_to / one_of
@@ -261,8 +290,8 @@ Core(mode, t, p) ==
   ELSE IF p.op = "type" THEN PyIsInstance(t, p.t)                      \* types by isinstance
   ELSE IF p.op = "pred" THEN LET r == PredRet(p.name, t) IN
          IF mode = "match" THEN r.ok /\ PyTruthy(r.v) ELSE r.ok        \* Auto: a callable is applied
-  ELSE IF p.op = "regex" THEN t.k = "str" /\ t.s \in RegexTab[p.name][p.func]
-  ELSE IF p.op = "m" THEN PyCmp(p.cmp, t, p.rhs) = "T"
+  ELSE IF p.op = "regex" THEN t.k = "str" /\ t.s \in RegexSet(p.name, p.func, p.flags)
+  ELSE IF p.op = "m" THEN (IF p.refl THEN PyCmp(p.cmp, p.rhs, t) ELSE PyCmp(p.cmp, t, p.rhs)) = "T"
   ELSE IF p.op = "mtruthy" THEN PyTruthy(t)
   ELSE IF p.op = "msub" THEN LET g == TGet(t, p.steps, 1) IN g.ok /\ PyCmp(p.cmp, g.v, p.rhs) = "T"
   ELSE IF p.op = "msubt" THEN LET g == TGet(t, p.steps, 1) IN g.ok /\ PyTruthy(g.v)
@@ -274,7 +303,7 @@ Core(mode, t, p) ==
   ELSE IF p.op = "switch" THEN
          LET S == {i \in 1..Len(p.cases) : Holds(mode, t, p.cases[i][1])} IN
          S # {} /\ Holds(mode, t, p.cases[MinOf(S)][2])                 \* first passing case only
-  ELSE IF p.op = "check" THEN CheckHolds(t, p)
+  ELSE IF p.op = "check" THEN LET g == TGet(t, p.sub, 1) IN g.ok /\ CheckHolds(g.v, p)   \* Check(spec, ..): on the sub-target
   ELSE IF p.op = "match" THEN Holds("match", t, p.sub)
   ELSE IF p.op \in {"list", "set", "frozenset"} THEN                    \* element-wise, any alternative
          PyIsInstance(t, p.op) /\ \A i \in 1..Len(t.items) : FirstAlt("match", t.items[i], p.alts) # 0
@@ -292,10 +321,12 @@ Core(mode, t, p) ==
 
 \* "each honours its default": And / Or / Match / Check never fail with a GlomError when they
 \* have one; Switch's default stands for "no case matched" only -- the value spec of the case
-\* that did match is not covered by it
+\* that did match is not covered by it; Check's default replaces a failed check, not a
+\* sub-spec that cannot be evaluated
 Holds(mode, t, p) ==
   IF p.op = "switch"
   THEN Core(mode, t, p) \/ (p.hasdef /\ \A i \in 1..Len(p.cases) : ~Holds(mode, t, p.cases[i][1]))
+  ELSE IF p.op = "check" THEN TGet(t, p.sub, 1).ok /\ (Core(mode, t, p) \/ p.hasdef)
   ELSE Core(mode, t, p) \/ HasDef(p)
 
 \* the value a passing evaluation yields (meaningful only where Holds)
@@ -346,6 +377,20 @@ HasOptDefault(p) ==
   ELSE IF p.op = "dict" THEN \E i \in 1..Len(p.items) :
          \/ (p.items[i][1].op = "optional" /\ p.items[i][1].hasdef)
          \/ HasOptDefault(p.items[i][2])
+  ELSE FALSE
+
+\* does a node of the pattern carry a default of its own (nested Match(.., default=), And / Or
+\* default)?  Then the result may differ from the target by more than added dict keys.
+RECURSIVE HasNodeDefault(_)
+HasNodeDefault(p) ==
+  LET any(sq) == \E i \in 1..Len(sq) : HasNodeDefault(sq[i]) IN
+  IF p.op \in {"and", "or"} THEN p.hasdef \/ any(p.c)
+  ELSE IF p.op = "not" THEN any(p.c)
+  ELSE IF p.op = "match" THEN p.hasdef \/ HasNodeDefault(p.sub)
+  ELSE IF p.op \in {"switch", "check", "val", "tget"} THEN TRUE
+  ELSE IF p.op \in {"list", "set", "frozenset"} THEN any(p.alts)
+  ELSE IF p.op = "tuple" THEN any(p.elems)
+  ELSE IF p.op = "dict" THEN \E i \in 1..Len(p.items) : HasNodeDefault(KeyPat(p.items[i][1])) \/ HasNodeDefault(p.items[i][2])
   ELSE FALSE
 
 \* ===================================================================================
@@ -412,6 +457,8 @@ EvSwitch(mode, t, p, i) ==
          LET rv == Ev(mode, t, p.cases[i][2]) IN
          IF Mutant = "switch_fallthrough" /\ Caught(rv)
            THEN Prepend(rk.calls \o rv.calls, rk.amb \/ rv.amb, EvSwitch(mode, t, p, i + 1))
+         ELSE IF Mutant = "switch_last_match" /\ i < Len(p.cases) /\ EvSwitch(mode, t, p, i + 1).ok
+           THEN Prepend(rk.calls, rk.amb, EvSwitch(mode, t, p, i + 1))
          ELSE Prepend(rk.calls, rk.amb, rv)
        ELSE IF Foreign(rk) THEN rk
        ELSE Prepend(rk.calls, rk.amb, EvSwitch(mode, t, p, i + 1))
@@ -419,11 +466,17 @@ EvSwitch(mode, t, p, i) ==
 \* Check.glomit
 \* (mutant check_default_ignored: the historic behaviour -- a validator that raises, with the
 \* other conditions met, led to a CheckError although a default was given)
-EvCheck(t, p) ==
-  LET raising == \E i \in 1..Len(p.validate) : ~PredRet(p.validate[i].name, t).ok
+\* Check(spec, ..): the conditions are applied to the sub-target the spec extracts (a spec that
+\* cannot be evaluated fails as itself), the data passed through is the target
+EvCheck(t0, p) ==
+  LET g == TGet(t0, p.sub, 1) IN
+  IF ~g.ok THEN Fail({"PathAccessError"}, <<>>)
+  ELSE
+  LET t == g.v
+      raising == \E i \in 1..Len(p.validate) : ~PredRet(p.validate[i].name, t).ok
       others == CheckHolds(t, [p EXCEPT !.validate = SelectSeq(p.validate, LAMBDA v : PredRet(v.name, t).ok),
                                         !.types = IF p.types = <<>> /\ p.inst = <<>> /\ p.vals = <<>> THEN <<PyType(t)>> ELSE @])
-  IN IF CheckHolds(t, p) THEN Pass(t, <<>>, TRUE)
+  IN IF CheckHolds(t, p) THEN (IF Mutant = "check_returns_subtarget" THEN Pass(t, <<>>, p.sub = <<>>) ELSE Pass(t0, <<>>, TRUE))
      ELSE IF p.hasdef /\ ~(Mutant = "check_default_ignored" /\ raising /\ others) THEN Pass(p.def, <<>>, FALSE)
      ELSE Fail({"CheckError"}, <<>>)
 
@@ -452,12 +505,24 @@ EvEntry(k, v, items, j) ==
        ELSE IF Foreign(rk) THEN [r |-> rk, j |-> 0, key |-> VNone]
        ELSE LET e == EvEntry(k, v, items, j + 1) IN [e EXCEPT !.r = Prepend(rk.calls, rk.amb, @)]
 
-EvDict(t, p) ==
+\* (mutant keys_by_precedence: spec keys tried by "specificity" -- constants, then specs, then
+\* types -- instead of the documented insertion order)
+KeyPrec(sk) ==
+  LET kp == KeyPat(sk) IN
+  IF IsEqKey(kp) THEN 0 ELSE IF kp.op = "type" THEN 2
+  ELSE IF kp.op = "tuple" /\ \E i \in 1..Len(kp.elems) : kp.elems[i].op = "type" THEN 2 ELSE 1
+ByPrecedence(items) ==
+  SelectSeq(items, LAMBDA it : KeyPrec(it[1]) = 0) \o SelectSeq(items, LAMBDA it : KeyPrec(it[1]) = 1) \o
+  SelectSeq(items, LAMBDA it : KeyPrec(it[1]) = 2)
+
+EvDict(t, p0) ==
   IF ~PyIsInstance(t, "dict") THEN Fail({"TypeMatchError"}, <<>>)
-  ELSE LET n == Len(t.items)
+  ELSE LET p == IF Mutant = "keys_by_precedence" THEN [p0 EXCEPT !.items = ByPrecedence(@)] ELSE p0
+           n == Len(t.items)
            es == [i \in 1..n |-> EvEntry(t.items[i].key, t.items[i].val, p.items, 1)]
            hit == {es[i].j : i \in {x \in 1..n : es[x].r.ok}}
-           missing == {j \in 1..Len(p.items) : IsRequiredKey(p.items[j][1]) /\ j \notin hit}
+           missing == {j \in 1..Len(p.items) : j \notin hit /\
+                         (IsRequiredKey(p.items[j][1]) \/ (Mutant = "type_keys_required" /\ p.items[j][1].op = "type"))}
            pairs == [i \in 1..n |-> Entry(es[i].key, es[i].r.v)]
            absent(sk) == sk.op = "optional" /\ sk.hasdef /\
                          (Mutant = "opt_default_always" \/ ~\E i \in 1..n : PyEq(es[i].key, sk.key))
@@ -465,25 +530,32 @@ EvDict(t, p) ==
            base == IF Mutant = "opt_default_always"
                    THEN SelectSeq(pairs, LAMBDA pr : ~\E i \in 1..Len(dflt) : PyEq(pr.key, dflt[i][1].key))
                    ELSE pairs
+           \* (mutant opt_default_validated: a default must itself match the value pattern)
+           baddef == Mutant = "opt_default_validated" /\
+                     \E i \in 1..Len(dflt) : ~Ev("match", dflt[i][1].def, dflt[i][2]).ok
        IN Collect([i \in 1..n |-> es[i].r],
-                  IF missing # {} /\ Mutant # "required_ignored" THEN {"MatchError"} ELSE {},
+                  IF (missing # {} /\ Mutant # "required_ignored") \/ baddef THEN {"MatchError"} ELSE {},
                   VC("dict", base \o [i \in 1..Len(dflt) |-> Entry(dflt[i][1].key, dflt[i][1].def)]))
 
 EvSeqPat(t, p) ==
-  IF ~PyIsInstance(t, p.op) THEN Fail({"TypeMatchError"}, <<>>)
+  IF ~PyIsInstance(t, p.op) /\ ~(Mutant = "set_family_loose" /\ IsC(t) /\ Family(t.cls) = Family(p.op))
+    THEN Fail({"TypeMatchError"}, <<>>)
   ELSE LET rs == [i \in 1..Len(t.items) |-> EvItem(t.items[i], p.alts, p.op # "list")]
        IN Collect(rs, {}, VC(p.op, [i \in 1..Len(rs) |-> rs[i].v]))
 
 EvTuple(t, p) ==
   IF ~PyIsInstance(t, "tuple") THEN Fail({"TypeMatchError"}, <<>>)
-  ELSE IF Len(t.items) # Len(p.elems) THEN Fail({"MatchError"}, <<>>)
+  ELSE IF Len(t.items) # Len(p.elems) /\ ~(Mutant = "tuple_length_unchecked" /\ Len(t.items) > Len(p.elems))
+    THEN Fail({"MatchError"}, <<>>)
   ELSE LET rs == [i \in 1..Len(p.elems) |-> Ev("match", t.items[i], p.elems[i])]
        IN Collect(rs, {}, VC("tuple", [i \in 1..Len(rs) |-> rs[i].v]))
 
-EvCmp(t, lhs, cmp, c) ==            \* _MExpr.glomit
+\* _MExpr.glomit: lhs cmp c decides, the target is passed through; a comparison Python itself
+\* refuses is not a rejection: its TypeError propagates
+EvCmp(t, lhs, cmp, c) ==
   LET r == PyCmp(cmp, lhs, c) IN
   IF r = "T" THEN Pass(t, <<>>, TRUE)
-  ELSE IF r = "F" THEN Fail({"MatchError"}, <<>>) ELSE Fail({"TypeError"}, <<>>)
+  ELSE IF r = "F" \/ Mutant = "unorderable_is_rejection" THEN Fail({"MatchError"}, <<>>) ELSE Fail({"TypeError"}, <<>>)
 
 Ev(mode, t, p) ==
   IF p.op = "lit" THEN IF PyEq(t, p.v) THEN Pass(t, <<>>, FALSE) ELSE Fail({"MatchError"}, <<>>)
@@ -495,12 +567,18 @@ Ev(mode, t, p) ==
     IF mode = "match"                                    \* truthy -> target; falsy / raising -> MatchError
     THEN IF r.ok /\ PyTruthy(r.v) THEN Pass(t, <<p.id>>, FALSE) ELSE Fail({"MatchError"}, <<p.id>>)
     ELSE IF r.ok THEN Pass(r.v, <<p.id>>, FALSE) ELSE Fail({r.exc}, <<p.id>>)     \* Auto: spec(target)
-  ELSE IF p.op = "regex" THEN
-    IF t.k = "str" /\ t.s \in RegexTab[p.name][p.func] THEN Pass(t, <<>>, TRUE) ELSE Fail({"MatchError"}, <<>>)
-  ELSE IF p.op = "m" THEN EvCmp(t, t, p.cmp, p.rhs)
+  ELSE IF p.op = "regex" THEN                            \* Regex.glomit: a string the pattern matches
+    IF t.k # "str" THEN Fail({IF Mutant = "regex_nonstr_typematcherror" THEN "TypeMatchError" ELSE "MatchError"}, <<>>)
+    ELSE IF t.s \in RegexSet(p.name,
+                             IF Mutant = "regex_default_search" /\ p.func = "fullmatch" THEN "search" ELSE p.func,
+                             IF Mutant = "regex_flags_ignored" THEN "" ELSE p.flags)
+         THEN Pass(t, <<>>, TRUE) ELSE Fail({"MatchError"}, <<>>)
+  ELSE IF p.op = "m" THEN
+    IF p.refl /\ Mutant # "m_reflected_unswapped" THEN EvCmp(t, p.rhs, p.cmp, t) ELSE EvCmp(t, t, p.cmp, p.rhs)
   ELSE IF p.op = "mtruthy" THEN IF PyTruthy(t) THEN Pass(t, <<>>, TRUE) ELSE Fail({"MatchError"}, <<>>)
   ELSE IF p.op = "msub" THEN
-    LET g == TGet(t, p.steps, 1) IN IF g.ok THEN EvCmp(t, g.v, p.cmp, p.rhs) ELSE Fail({"PathAccessError"}, <<>>)
+    LET g == TGet(t, p.steps, 1) IN
+    IF g.ok THEN EvCmp(IF Mutant = "msub_returns_sub" THEN g.v ELSE t, g.v, p.cmp, p.rhs) ELSE Fail({"PathAccessError"}, <<>>)
   ELSE IF p.op = "msubt" THEN
     LET g == TGet(t, p.steps, 1) IN
     IF ~g.ok THEN Fail({"PathAccessError"}, <<>>)
@@ -521,7 +599,9 @@ Ev(mode, t, p) ==
     ELSE [Pass(t, r.calls, TRUE) EXCEPT !.amb = r.amb]
   ELSE IF p.op = "switch" THEN EvSwitch(mode, t, p, 1)
   ELSE IF p.op = "check" THEN EvCheck(t, p)
-  ELSE IF p.op = "match" THEN WithDefault(Ev("match", t, p.sub), p)      \* Match.glomit
+  ELSE IF p.op = "match" THEN                                           \* Match.glomit (also nested)
+    IF Mutant = "nested_match_default_ignored" /\ mode = "match" THEN Ev("match", t, p.sub)
+    ELSE WithDefault(Ev("match", t, p.sub), p)
   ELSE IF p.op \in {"list", "set", "frozenset"} THEN EvSeqPat(t, p)
   ELSE IF p.op = "tuple" THEN EvTuple(t, p)
   ELSE IF p.op = "dict" THEN EvDict(t, p)
@@ -532,6 +612,23 @@ ErrNames == <<"MatchError", "TypeMatchError", "CheckError", "PathAccessError", "
               "TypeError", "ValueError", "Unmodelled">>
 Dumped(o) == [o EXCEPT !.errs = SelectSeq(ErrNames, LAMBDA e : e \in o.errs)]
 Undumped(o) == [o EXCEPT !.errs = {o.errs[i] : i \in 1..Len(o.errs)}]
+
+\* construction of Optional(key) / Required(key): "equality keys are required unless Optional,
+\* other keys optional unless Required" -- so Optional takes equality keys only, Required takes
+\* anything but equality keys (ValueError otherwise), and wrapping twice is a TypeError
+Constructs(p) ==
+  IF p.op # "wrap" THEN "ok"
+  ELSE IF p.key.op = "wrap" THEN "TypeError"
+  ELSE IF p.kind = "optional" THEN (IF IsEqKey(p.key) THEN "ok" ELSE "ValueError")
+  ELSE IF IsEqKey(p.key) /\ Mutant # "required_constant_allowed" THEN "ValueError" ELSE "ok"
+\* further documented constructor refusals (a table; the harness holds the constructor calls)
+CtorTable ==
+  [and_no_children |-> "ValueError", or_no_children |-> "ValueError", bool_unknown_kwarg |-> "TypeError",
+   switch_no_cases |-> "ValueError", switch_not_list_or_dict |-> "TypeError", switch_dict_ok |-> "ok",
+   regex_bad_func |-> "ValueError", regex_func_none |-> "ok", m_of_non_t |-> "TypeError", m_of_t |-> "ok",
+   check_equal_to_and_one_of |-> "TypeError", check_one_of_empty |-> "ValueError", check_type_not_a_type |-> "ValueError",
+   check_validate_not_callable |-> "ValueError", check_instance_of_empty |-> "ValueError", check_unknown_kwarg |-> "TypeError",
+   check_no_conditions |-> "ok"]
 
 \* --- the interface named by the design --------------------------------------------
 Conforms(heap, target, pattern) == Holds("match", TreeOf(heap, target), pattern)
